@@ -523,6 +523,13 @@ def cases(tier, seed):
   add('case_hypercube', sizes=[3, 2], units=1, interp='hypercube', clip=True, list_input=True)
   add('case_hypercube', sizes=[2, 2, 2], units=2, interp='hypercube', clip=True, list_input=True)
   add('case_hypercube', sizes=[2, 3], units=1, interp='hypercube', clip=True, extra_batch=True)
+  # several units / an extra batch dimension together with a run of equal sizes above 2 (the bucketed code path)
+  add('case_hypercube', sizes=[3, 3], units=2, interp='hypercube', clip=True)
+  add('case_hypercube', sizes=[3, 3], units=3, interp='hypercube', clip=False)
+  add('case_hypercube', sizes=[2, 3, 3], units=2, interp='hypercube', clip=True, required=False, timeout=200)
+  add('case_hypercube', sizes=[3, 3], units=1, interp='hypercube', clip=True, extra_batch=True)
+  add('case_hypercube', sizes=[3, 3], units=2, interp='hypercube', clip=True, list_input=True)
+  add('case_simplex', sizes=[3, 3], units=2, interp='simplex', clip=True)
   add('case_simplex', sizes=[2, 3], units=2, interp='simplex', clip=True)
   add('case_simplex', sizes=[2, 2], units=2, interp='simplex', clip=True)
   add('case_simplex', sizes=[3, 2], units=1, interp='simplex', clip=True, list_input=True)
